@@ -94,6 +94,11 @@ def _error_exit_blocks(ctx, f):
         d, r, _ = ctx.prog.callee_of(t)
         if (d or "").endswith("FromResidual::from_residual") or (r or "").endswith("::from_residual"):
             out.add(b)
+    # `Err(e) => return Err(e)` written out: the return value is built as an Err here
+    for b in f.live_blocks():
+        for st in f.blocks[b]["stmts"]:
+            if st["k"] == "assign" and st["place"]["local"] == 0 and not st["place"]["proj"] and st["rv"]["k"] == "agg" and st["rv"].get("variant") == "Err" and "Result" in (st["rv"].get("adt") or ""):
+                out.add(b)
     return out
 
 
